@@ -326,11 +326,11 @@ WhyReject(r, p, loc) ==
 
 (* server.go prePolicyFilterpath + filterpath + peer.filterPathFromSourcePeer, old = nil,
    families enabled, no RTC/VRF, allow-as-path-loop-local off *)
-(* wd = the path handed over is the withdrawal of r.  path.ReplaceAS is applied to announcements
-   only, so isASLoop sees the RAW AS_PATH of a withdrawal - of r itself, or of the previous best
-   that filterPathFromSourcePeer substitutes - and drops it (KF-C09-override-withdraw-dropped). *)
+(* wd = the path handed over is the withdrawal of r.  Since repo commit 2a1885d path.ReplaceAS is
+   applied to withdrawals and to the previous best as well (before: announcements only, finding
+   FX-C09-override-withdraw-dropped). *)
 MechAdvertiseW(r, olds, wd, t, loc) ==
-  LET p1 == IF wd THEN r.aspath ELSE RepPeer(r.aspath, t, SessionAS(t, loc))   \* path.ReplaceAS, BEFORE filterpath
+  LET p1 == RepPeer(r.aspath, t, SessionAS(t, loc))     \* path.ReplaceAS BEFORE filterpath, withdrawals too (2a1885d)
       hasOld == olds # <<>> /\ ~wd                                          \* "!path.IsWithdraw && old != nil"
       loops(p) == t.kind # "rsclient" /\ t.as \in ASSetOf(p, {"SEQ", "SET"})  \* isASLoop
       ibgpIgnore ==
@@ -347,7 +347,7 @@ MechAdvertiseW(r, olds, wd, t, loc) ==
                                                 (olds[1].src.as # t.as \/ olds[1].src.kind = "rrclient")))
         THEN "withdraw" ELSE "no")
      ELSE IF ~IsLocalRoute(r) /\ r.src.rid = t.rid THEN                     \* filterPathFromSourcePeer
-       (IF t.kind # "rsclient" /\ hasOld /\ olds[1].src.addr # t.addr /\ ~loops(olds[1].aspath)
+       (IF t.kind # "rsclient" /\ hasOld /\ olds[1].src.addr # t.addr /\ ~loops(RepPeer(olds[1].aspath, t, SessionAS(t, loc)))
         THEN "withdraw" ELSE "no")
      ELSE IF loops(p1) THEN (IF hasOld THEN "withdraw" ELSE "no")
      ELSE IF wd THEN "withdraw" ELSE "yes"
